@@ -226,7 +226,10 @@ class Engine:
             if name in getattr(self.ctr, 'const_globals', ()) or True:
                 return VPy(o)
         if inspect.isfunction(o):
-            return VFn('func', qual='%s.%s' % (o.__module__, o.__qualname__))
+            q = '%s.%s' % (o.__module__, o.__qualname__)
+            if not q.startswith('parso.') and 'ext:' + q in REG:
+                q = 'ext:' + q          # a function outside the package: used through its assumed (trusted) contract
+            return VFn('func', qual=q)
         if inspect.isclass(o) or isinstance(o, types.ModuleType):
             return VPy(o)
         return VPy(o)
